@@ -243,6 +243,38 @@ class Peer:
         if text:
             self._write(dtid, k, pid, text)
 
+    def emitop(self, pid):
+        """prints its token *and* returns a value (code that does both)"""
+        dtid, k, n = self._hit(pid)
+        f = self._fault(dtid, k, pid, n)
+        text = tok(pid, n) + '\n'
+        val = Val(tok(pid, n))
+        if f is not None:
+            self._misbehave_pre(f, pid, n, sys._getframe(1).f_globals)
+            kind = f['kind']
+            if kind == 'wrong':
+                text = tok(pid, n, wrong=True) + '\n'
+                val = Val(tok(pid, n, wrong=True))
+            elif kind in ('mute', 'drop_line'):
+                text = ''
+            elif kind == 'extra_line':
+                text = text + tok(pid, n, wrong=True) + '\n'
+            elif kind == 'prepend_line':
+                text = tok(pid, n, wrong=True) + '\n' + text
+            elif kind == 'bad_repr':
+                val = BadRepr(tok(pid, n))
+        if text:
+            self._write(dtid, k, pid, text)
+        return val
+
+    def deco(self, pid):
+        """decorator factory: evaluating the decorator expression is a hit"""
+        dtid, k, n = self._hit(pid)
+        f = self._fault(dtid, k, pid, n)
+        if f is not None:
+            self._misbehave_pre(f, pid, n, sys._getframe(1).f_globals)
+        return lambda obj: obj
+
     def say(self, text, pid):
         """prints a shared, non-unique line"""
         dtid, k, n = self._hit(pid)
@@ -372,7 +404,7 @@ PEER = Peer()
 def install():
     """Create the module object `_xdsim` whose attributes forward to PEER."""
     mod = types.ModuleType(MODNAME)
-    for name in ('op', 'emit', 'say', 'aop', 'actx', 'point', 'names', 'modglobal', 'importing'):
+    for name in ('op', 'emit', 'emitop', 'deco', 'say', 'aop', 'actx', 'point', 'names', 'modglobal', 'importing'):
         setattr(mod, name, getattr(PEER, name))
     mod.Val = Val
     mod.SimError = SimError
